@@ -94,7 +94,7 @@ def collect(ctx):
     cases = []
     for label, m, _, reason in K.corner_modules():
         cases.append({"label": label, "module": m, "gen": None, "expect": reason})
-    n = 150 if ctx.thorough else 10
+    n = 80 if ctx.thorough else 10
     for label, g in K.generated(ctx, n, cover):
         cases.append({"label": label, "module": g.module, "gen": g, "expect": None})
     for k, which in enumerate(["inline-asm", "name-capture", "float-text"] * (4 if ctx.thorough else 1)):
